@@ -112,8 +112,8 @@ pub fn run(r: &mut Runner) {
     });
     // ---- binary entry points on the multiplication plan (mantissa-rich) and the addition plan (exponent-rich)
     let mut p = crate::props::c04::plan(quick);
-    p.ua = p.ua.into_iter().step_by(if quick { 4 } else { 7 }).collect();
-    p.ub = p.ub.into_iter().step_by(if quick { 4 } else { 7 }).collect();
+    p.ua = p.ua.into_iter().step_by(if quick { 6 } else { 7 }).collect();
+    p.ub = p.ub.into_iter().step_by(if quick { 5 } else { 7 }).collect();
     p.emin = -1022;
     p.emax = 1022;
     if !quick {
